@@ -2,6 +2,7 @@
 package main
 
 import (
+	"encoding/json"
 	"flag"
 	"fmt"
 	"os"
@@ -56,6 +57,18 @@ func main() {
 	}
 	c.Deadline = time.Now().Add(*budget)
 	c.ReplayFile = *replay
+	if *replay != "" {
+		b, err := os.ReadFile(*replay)
+		if err != nil {
+			engine.HarnessError("cannot read replay file: %v", err)
+		}
+		var v engine.Violation
+		if err := json.Unmarshal(b, &v); err != nil {
+			engine.HarnessError("cannot parse replay file: %v", err)
+		}
+		c.Replay = &v
+		fmt.Printf("replaying %s: %s\n  stored message: %s\n  stored history: %v\n", v.Sig, v.Spec, v.Msg, v.History)
+	}
 	run(c)
 	code := c.Finish()
 	os.RemoveAll(*scratch)
